@@ -3,6 +3,7 @@ from .common import jobs_for
 LEVEL = 'proof'
 LEVEL_TEXT = 'each of the 16 limiter closures (and the fallback) is traced on a symbolic real r and proved equal to the published closed form for every real r, every denominator proved non-zero (totality), psi(1)=1, 0<=psi<=min(2r,4) for r>0, clipped family vanishes for r<=0; _fsign never returns 0; every denominator of the 9 TVD builders is non-zero for every field on every well-formed mesh'
 LEVEL_NOTE = 'real arithmetic (A1): overflow for |r| beyond ~1e154 is outside the model; elementwise action on arrays of any shape is the lifting of the numpy model, checked differentially on shapes 0-3D'
+NOT_MACHINE_CHECKED = ['|r| beyond ~1e154 (r*r overflows in binary64): outside the real-number model (A1)', "'acts elementwise on arrays of any shape' is the lifting of the numpy model's ufuncs, checked differentially against numpy on shapes 0-D..3-D"]
 MODULES = ['contracts.limiters', 'contracts.canaries']
 TRUSTED = ['A1', 'A2', 'A5', 'A6', 'UF']
 
